@@ -35,7 +35,7 @@ RULE = ('(a) round trips: random dtype (incl. structured, big-endian, bool, comp
         'only MISSING chunks may be replaced by the default value; (j) 2-4 arrays with near-colliding names (\'_\' / \'-\' variants, '
         'prefixes of each other, names with \'/\', characters that need quoting, upper / lower case, names that look like chunk ids / '
         'markers) written into ONE store (put_chunk / put_dask_array, one array or one chunk rewritten, markers) and read back '
-        '(get_chunk, is_complete, get_dask_array) on Dict / NPY / S3 with the S3 store URL in both modes (bare endpoint with the '
+        '(get_chunk and is_complete of every array, get_dask_array of two of them) on Dict / NPY / S3 with the S3 store URL in both modes (bare endpoint with the '
         'bucket in the names incl. two buckets, or bucket and key prefix in the store URL, with / without trailing slash), the '
         'endpoint\'s key set compared with the documented names; a 6 % stream of ill-formed names (empty / dot components: '
         'finding C07-F7); round trips (a) and sequences (c) on S3 also use both URL modes. A case is non-trivial when it stores at least two chunks / has a non-empty '
@@ -1642,7 +1642,7 @@ def naming_wire(c, mode):
     return [74, [2, mode, codes(c['bp']), out]]
 
 
-def nm_data(dtype, bshape, v):
+def nm_block(dtype, bshape, v):
     n = int(np.prod(bshape, dtype=int))
     return conv(dtype, (np.arange(n) + 64 * v).reshape(bshape))
 
@@ -1708,6 +1708,16 @@ def naming_case(ctx, be, c, mo, mv, spec):
     impl = []
     nputs = sum(1 for o in ops if o[0] == 'put')
     pos = 0
+    cache = {}
+
+    def nm_data(dt, bshape, v):
+        if (bshape, v) not in cache:
+            cache[(bshape, v)] = nm_block(dt, bshape, v)
+        return cache[(bshape, v)]
+    written = {}       # block index -> the puts addressed to a block of that shape (candidates when identifying data read back)
+    for o in ops:
+        if o[0] == 'put':
+            written.setdefault(bshapes[o[2]], []).append(o[3])
     try:
         for k, how in c['writes']:
             if kind != 'dict':
@@ -1747,7 +1757,7 @@ def naming_case(ctx, be, c, mo, mv, spec):
         if what == 'get':
             try:
                 ch = store.get_chunk(names[k], tuple(slice(s, e) for s, e in blocks[b]), dtype)
-                found = [v for v in range(nputs) if same(ch, nm_data(dtype, bshapes[b], v))]
+                found = [v for v in written.get(tuple(ch.shape), []) if same(ch, nm_data(dtype, tuple(ch.shape), v))]
                 impl.append(found[0] if found else -3)
             except ChunkNotFound:
                 impl.append(-1)
@@ -1765,7 +1775,7 @@ def naming_case(ctx, be, c, mo, mv, spec):
                 raised = raised or type(e).__name__
     # whole arrays as lazy arrays
     lazy = {}
-    for k in range(len(names)):
+    for k in range(min(2, len(names))):      # (the names are in random order)
         try:
             with dask.config.set(scheduler=c['sched']):
                 lazy[k] = np.asarray(store.get_dask_array(names[k], chunks, dtype, errors='raise').compute())
@@ -1801,7 +1811,7 @@ def naming_case(ctx, be, c, mo, mv, spec):
         ctx.disagree(sig + 'symptom=model_differs', c, impl, m_ans, 'the model of the keyed store answers differently', spec=s_ans,
                      kind='tie')
     else:
-        for k in range(len(names)):
+        for k in sorted(lazy):
             want = [s_ans[j] for j in range(len(ops)) if kinds[j] == 'get' and ops[j][1] == k]
             if any(v < 0 for v in want):
                 continue
@@ -1869,17 +1879,24 @@ def run(ctx):
         try:
             for f in ctx.findings:
                 run_witness(ctx, be, f['witness'])
-            run_names(ctx, ctx.scale(300, 3000))
-            run_buckets(ctx, ctx.scale(300, 3000))
-            run_gen_chunks(ctx, ctx.scale(3000, 40000), be)
-            run_roundtrips(ctx, be, gen_roundtrips(ctx, ctx.scale(480, 6000)))
-            run_index_cases(ctx, be, gen_index_cases(ctx, ctx.scale(300, 4500)))
-            run_ops(ctx, be, ctx.scale(120, 1500))
-            run_layout_cases(ctx, be, gen_layout_cases(ctx, ctx.scale(400, 4800)))
-            run_foreign_cases(ctx, be, gen_foreign_cases(ctx, ctx.scale(120, 1500)))
-            run_multi_cases(ctx, be, gen_multi_cases(ctx, ctx.scale(300, 3600)))
-            run_mismatch_cases(ctx, be, gen_mismatch_cases(ctx, ctx.scale(120, 1500)))
-            run_naming_cases(ctx, be, gen_naming_cases(ctx, ctx.scale(260, 3200)))
+            import time
+            stages = ctx.extra.setdefault('stage_seconds', {})
+
+            def stage(name, fn, *a):
+                t0 = time.time()
+                fn(*a)
+                stages[name] = round(stages.get(name, 0) + time.time() - t0, 1)
+            stage('names', run_names, ctx, ctx.scale(300, 3000))
+            stage('buckets', run_buckets, ctx, ctx.scale(300, 3000))
+            stage('generate_chunks', run_gen_chunks, ctx, ctx.scale(3000, 40000), be)
+            stage('roundtrips', run_roundtrips, ctx, be, gen_roundtrips(ctx, ctx.scale(480, 6000)))
+            stage('index', run_index_cases, ctx, be, gen_index_cases(ctx, ctx.scale(300, 4500)))
+            stage('sequences', run_ops, ctx, be, ctx.scale(120, 1500))
+            stage('layouts', run_layout_cases, ctx, be, gen_layout_cases(ctx, ctx.scale(400, 4800)))
+            stage('foreign', run_foreign_cases, ctx, be, gen_foreign_cases(ctx, ctx.scale(120, 1500)))
+            stage('multi', run_multi_cases, ctx, be, gen_multi_cases(ctx, ctx.scale(300, 3600)))
+            stage('mismatch', run_mismatch_cases, ctx, be, gen_mismatch_cases(ctx, ctx.scale(120, 1500)))
+            stage('naming', run_naming_cases, ctx, be, gen_naming_cases(ctx, ctx.scale(190, 2600)))
             if ctx.tier == 'thorough':
                 run_gc_exhaustive(ctx)
                 sample = [[7, [6, 5, z]] for z in (0, 7, 99999, 100000, -1, -12345, 10 ** 17)]
